@@ -26,6 +26,7 @@ type vArchiveStats struct {
 	maxFile   int64  // largest of them
 	maxDepth  int64  // deepest entry (0 = directly in the destination)
 	lying     bool   // some header contradicts its data
+	lyingShort bool  // ... by declaring fewer bytes than are stored
 	nestedAny bool
 }
 
@@ -86,6 +87,7 @@ func vGenEntries(tag string, maxEntries int, allowNested bool, recursive bool, d
 					st.maxDepth = inner.maxDepth
 				}
 				st.lying = st.lying || inner.lying
+				st.lyingShort = st.lyingShort || inner.lyingShort
 				st.nestedAny = true
 			} else {
 				st.files++
@@ -108,6 +110,7 @@ func vGenEntries(tag string, maxEntries int, allowNested bool, recursive bool, d
 			case 2:
 				e.declared = int64(size) - 1
 				st.lying = true
+				st.lyingShort = true
 			}
 		}
 		entries = append(entries, e)
@@ -178,7 +181,7 @@ func VerifC03_Limits() {
 		verif.Assert("success_respects_total_size", total <= maxTotal)
 		verif.Assert("success_respects_file_size", biggest <= maxFileSize)
 		verif.Assert("success_respects_depth", verif.Or(maxDepth < 0, deepest <= maxDepth))
-		verif.AssertKnown("lying_header_is_an_error", !st.lying, "KF-C03-short-declared-size-accepted", st.lying)
+		verif.AssertKnown("lying_header_is_an_error", !st.lying, "KF-C03-short-declared-size-accepted", st.lyingShort)
 	} else {
 		verif.Reach("refused")
 	}
